@@ -127,6 +127,9 @@ func runSentence(c GCase, o sentenceOpts) *sentenceResult {
 		case e.Op == gram.OpRune:
 			what = "was expecting " + strconv.Quote(string(rune(e.C)))
 			term = true
+		case e.Op == gram.OpEnd: // End() used inside the grammar is a terminal expectation like any other
+			what = "was expecting the end of input"
+			term = true
 		case h.NameOf != nil && h.NameOf(e) != "":
 			what = "was expecting " + h.NameOf(e)
 		default:
